@@ -11,7 +11,8 @@ LABELS = ["a", "b", "c", "d", "e", "f", "a1", "ä"]
 REF = st.integers(0, 40)
 PREF = st.one_of(st.just(-1), st.integers(0, 40))  # parent ref incl. the tree itself
 LABEL = st.sampled_from(LABELS)
-IDS = st.sampled_from(["X1", "X2", 1000, 1001])
+IDS = st.sampled_from(["X1", "X2", 1000, 1001, 0])
+ADD_IDS = st.sampled_from(["X1", "X2", 1000, 1001, 0])  # 0: a legal falsy explicit id (only for new nodes)
 KINDS = st.sampled_from(["child", "x", "y"])
 
 
@@ -30,7 +31,7 @@ def before_json(valid_only=False, invalid_bias=False):
 def new_opts(draw, typed, explicit_ids=True, fresh=False):
     o = {}
     if explicit_ids and draw(st.sampled_from([0, 0, 0, 1])):
-        o["id"] = draw(IDS)
+        o["id"] = draw(ADD_IDS)
     if typed and draw(st.booleans()):
         o["kind"] = draw(KINDS)
     if fresh and draw(st.sampled_from([0, 0, 1])):
